@@ -422,3 +422,58 @@ Print Assumptions C08_tags_total_translated.
 Print Assumptions C08_idle_tags_total_translated.
 Print Assumptions C08_registry_total_translated.
 Print Assumptions C08_update_tags_total_translated.
+
+(* ================================================================ phase 5: every decode site *)
+From GoMC Require Import Model.C08_sites Proofs.C08_sites Proofs.C08_sites_expected Proofs.C08_sites_tie.
+
+(* the table tools/gotrans/c08.go regenerates on every run - every `<packet>.Scan(args...)` call of
+   bot/... and server/... with the declared type of each argument, every ReadFrom method of chat/sign,
+   level/component, yggdrasil/user, bot, bot/screen with its reads in source order - is the recorded one *)
+Theorem C08_sites_recorded :
+  c08_scan_sites = expected_scan_sites /\ c08_readfrom_sites = expected_readfrom_sites.
+Proof. split; [exact scan_sites_recorded|exact readfrom_sites_recorded]. Qed.
+
+(* what a descriptor denotes is total whenever it has no panic statement and no array of zero-width
+   elements, for every choice the decoded data can make (oracle) and all foreign decoders (text
+   components, chunks, NBT documents, FixedBitSet) that return a value or an error without reading
+   backwards and - FixedBitSet apart - consume input when they succeed *)
+Definition ext_ok (ext : String.string -> dec unit) (fuel : nat) : Prop :=
+  (forall k s, (length s < fuel)%nat -> prog0 s (run_flat (ext k) s)) /\
+  (forall k s, (length s < fuel)%nat -> String.eqb k fixedbits = false -> prog s (run_flat (ext k) s)).
+Theorem C08_descriptor_total : forall ext oracle fuel, ext_ok ext fuel ->
+  forall d, sd_ok d = true -> forall s, (length s < fuel)%nat ->
+  prog0 s (run_flat (sdr ext oracle fuel d) s) /\ (productive d = true -> prog s (run_flat (sdr ext oracle fuel d) s)).
+Proof. intros ext oracle fuel [H1 H2] d Hd s Hs. exact (sdr_fine ext oracle fuel H1 H2 d Hd s Hs). Qed.
+
+(* EVERY row of the regenerated tables: the Scan over that site's argument types / the ReadFrom method
+   returns a value or an error and gives no input back, on every byte string.  A new Scan site or a
+   changed argument type is inside the theorem on the next run (or stops the translator). *)
+Theorem C08_scan_sites_total : forall ext oracle fuel, ext_ok ext fuel ->
+  forall r, In r c08_scan_sites -> forall s, (length s < fuel)%nat ->
+  prog0 s (run_flat (sdr ext oracle fuel (r_desc r)) s).
+Proof. intros ext oracle fuel [H1 H2]. exact (scan_sites_total ext oracle fuel H1 H2). Qed.
+Theorem C08_readfrom_sites_total : forall ext oracle fuel, ext_ok ext fuel ->
+  forall r, In r c08_readfrom_sites -> forall s, (length s < fuel)%nat ->
+  prog0 s (run_flat (sdr ext oracle fuel (r_desc r)) s).
+Proof. intros ext oracle fuel [H1 H2]. exact (readfrom_sites_total ext oracle fuel H1 H2). Qed.
+
+(* the hypothesis on the foreign decoders is satisfiable, the tables are not empty, and a panic
+   statement or an array of zero-width elements is what sd_ok refuses *)
+Definition ex_ext : String.string -> dec unit :=
+  fun k => if String.eqb k fixedbits then ReadFull 3 (fun _ => Ret tt) else ReadByte (fun _ => Ret tt).
+Example C08_ex_ext_ok : forall fuel, ext_ok ex_ext fuel.
+Proof.
+  intros fuel. split; intros k s _; unfold ex_ext.
+  - destruct (String.eqb k fixedbits); [apply readfull_prog0; intros; apply ret_prog0|].
+    apply prog_prog0. cbn. destruct s; cbn; [exact I|apply Nat.lt_succ_diag_r].
+  - intros E. rewrite E. cbn. destruct s; cbn; [exact I|apply Nat.lt_succ_diag_r].
+Qed.
+Example C08_ex_sites : (length c08_scan_sites = 40)%nat /\ Nat.leb 40 (length c08_readfrom_sites) = true /\
+  sd_ok (DSeq [DF TVarInt; DPanic String.EmptyString]) = false /\ sd_ok (DAry (DSeq [])) = false /\
+  sd_ok (DAry (DSeq [DF TVarInt; DChoice 1 (DRaw 256) (DSeq [])])) = true.
+Proof. repeat split; vm_compute; reflexivity. Qed.
+
+Print Assumptions C08_sites_recorded.
+Print Assumptions C08_descriptor_total.
+Print Assumptions C08_scan_sites_total.
+Print Assumptions C08_readfrom_sites_total.
